@@ -48,6 +48,13 @@ def run(facts, rep):
                     last = e.name.split('::')[-1]
                     if last in ('contains_key', 'get', 'get_mut') and len(e.args) == 2 and 'Map' in e.name:
                         looked[e.site] = (last, _map(e.args[0]), _key(e.args[1]))
+                    if last == 'entry' and 'Map' in e.name and len(e.args) == 2 and _map(e.args[0]).endswith('.data'):
+                        # the entry API looks the key up itself: or_insert / and_modify cannot overwrite
+                        seen_here = True
+                        if (k, e.site) not in sites:
+                            sites.add((k, e.site))
+                            n += 1
+                            rep.ok('E34.I1-insert-fresh', '%s|insert into Lc.data only after the key was found absent' % k[len('yui::types::'):], 'entry API')
                     if last == 'insert' and 'Map' in e.name and len(e.args) == 3 and _map(e.args[0]).endswith('.data'):
                         seen_here = True
                         inst = '%s|insert into Lc.data only after the key was found absent' % k[len('yui::types::'):]
